@@ -14,7 +14,11 @@ Oracles that need no model (the failing-input search):
   * module     — the parse-time module changes only through `.module(...)`;
   * eval       — evaluating the re-parsed program gives what the first gives (safe programs only).
 
-Every worker process runs its own interpreter and its own Lean driver (16 cores).
+Every worker process runs its own interpreter and its own Lean driver (16 cores).  The parent supervises
+the workers with a wall-clock watchdog (class Supervisor): a text on which a worker goes silent (work inside
+a C extension is invisible to the call count and cannot be interrupted from inside) or whose parse takes
+seconds is re-run alone in a fresh process; stuck/slow again = `parse:hang` failing input; the worker is
+killed and replaced, the run stops early.  Texts run shortest first, so the smallest one becomes the replay.
 """
 import ast as pyast
 import glob
@@ -24,6 +28,8 @@ import os
 import re
 import signal
 import sys
+import time
+from multiprocessing.connection import wait as mp_wait
 
 from . import common
 from .common import Driver, Infra
@@ -62,7 +68,19 @@ K_CALLS = 100         # real profile events allowed per model step
 K0_CALLS = 2000
 CAP_CALLS = 30_000_000
 EVAL_CAP = 150_000
-BATCH_ALARM = 1800    # seconds per worker batch: only so that the check itself can never hang
+# Wall clock is used ONLY as a supervisor: work done inside a C extension (e.g. a backtracking regular
+# expression) makes no Python calls and cannot be interrupted by a signal handler, so the parent process
+# watches every worker.  SOFT: a parse that takes this long is re-run in a fresh process and reported if it
+# is slow again.  HARD: a worker that does not start its next text within this time is killed, the text is
+# confirmed in a fresh process (killed again = hang) and the worker is replaced.  Ordinary texts take
+# milliseconds; both limits grow with the model's step count.
+SOFT_WALL = 3.0
+SOFT_PER_STEP = 1 / 1000
+HARD_WALL = 12.0
+HARD_PER_STEP = 1 / 300
+MODEL_WALL = 240.0    # the pipelined model calls of one batch
+GRACE_AFTER_HANG = 25.0
+K_SWITCHES = 40       # module switches through __call__ before the long-lived interpreter is renewed
 
 EXPECTED_LOOPS = {
     "parser.py": {"read_shifted_comment": 1, "read_sys_comment": 1, "skip_space": 1, "read_num": 1,
@@ -84,18 +102,11 @@ class _W:
     KI = None
     fresh = None        # (premod, interpreter, uses): a young interpreter for the history check
     n = 0
+    switches = 0
 
 
 class Budget(BaseException):
     pass
-
-
-class Alarm(BaseException):
-    pass
-
-
-def _on_alarm(signum, frame):
-    raise Alarm()
 
 
 def guarded(fn, limit):
@@ -123,9 +134,6 @@ def guarded(fn, limit):
     except MemoryError:
         sys.setprofile(None)
         return ("deep", None, cnt[0])
-    except Alarm:
-        sys.setprofile(None)
-        raise
     except Exception as e:  # noqa
         sys.setprofile(None)
         return ("err", e, cnt[0])
@@ -141,29 +149,6 @@ def plain(fn):
         return ("deep", None, 0)
     except Exception as e:  # noqa
         return ("err", e, 0)
-
-
-def line_budgeted(fn, limit):
-    """deterministic confirmation of a hang that makes no calls: count executed lines"""
-    cnt = [0]
-
-    def tr(frame, ev, arg):
-        cnt[0] += 1
-        if cnt[0] > limit:
-            sys.settrace(None)
-            raise Budget()
-        return tr
-
-    sys.settrace(tr)
-    try:
-        fn()
-        return False
-    except Budget:
-        return True
-    except BaseException:
-        return False
-    finally:
-        sys.settrace(None)
 
 
 def pydump(x, depth=0):
@@ -365,23 +350,7 @@ def model_many(cases):
 
 
 def run_case(text, premod, want_eval, mrep=None):
-    """one case; a batch alarm that fires inside it (a loop that makes no calls, or a hang of the
-    un-budgeted repeat parses) is confirmed deterministically by a line-count budget"""
-    try:
-        return run_case0(text, premod, want_eval, mrep)
-    except Alarm:
-        _W.klong = new_interp(None)
-        _W.fresh = None
-
-        def twice():
-            k2 = new_interp(premod)
-            k2.prog(text)
-            k2.prog(text)
-        if not line_budgeted(twice, 2_000_000 + 5000 * (len(text) + 1) ** 2):
-            raise
-        signal.alarm(BATCH_ALARM)
-        return dict(text=text, premod=premod, real="hang", calls=-1, mism=None,
-                    problems=[("hang", "no return within the batch alarm; confirmed by the line-count budget")])
+    return run_case0(text, premod, want_eval, mrep)
 
 
 def run_case0(text, premod, want_eval, mrep=None):
@@ -398,21 +367,42 @@ def run_case0(text, premod, want_eval, mrep=None):
     budget = min(K_CALLS * st + K0_CALLS, CAP_CALLS) if st is not None else min(K_CALLS * 20 * (len(text) + 1) ** 2 + K0_CALLS, CAP_CALLS)
     out["budget"] = budget
     # ---- real, first parse (long-lived interpreter: history is part of the test)
+    # The long-lived interpreter switches modules the way a REPL session does: by EVALUATING `.module(:m)` /
+    # `.module(0)` through __call__ (the second time a text is evaluated from the same module is a parse-cache
+    # hit, which must replay the switch completely); young interpreters switch by parsing only.
+    km = _W.klong._module
+    if _W.switches >= K_SWITCHES or not (km is None or type(km).__name__ == "KGSym"):
+        _W.klong = new_interp(None)       # also: never carry an exotic module object (a list, a KGOp, ...) over
+        _W.switches = 0
     k = _W.klong
     try:
         if premod:
-            # the same text first in ANOTHER module: a parse cache keyed on the text alone shows up below
+            # self-contained history (so that a replay of this one case reproduces it): enter the module,
+            # leave it, parse the same text OUTSIDE the module (a parse cache keyed on the text alone shows up
+            # below), then enter the module AGAIN with the identical switch text -- a parse-cache hit
             if k._module is not None:
-                k.prog(".module(0)")
+                k(".module(0)")
+            k(f".module(:{premod})")
+            k(".module(0)")
             guarded(lambda: k.prog(text), budget)
-            k.prog(f".module(:{premod})")
+            k(f".module(:{premod})")
+            _W.switches += 3
         elif k._module is not None:
-            k.prog(".module(0)")
+            k(".module(0)")
+            _W.switches += 1
     except Exception as e:  # the set-up itself is broken
         out["problems"].append(("setup", f"{type(e).__name__}: {e}"))
+        k = _W.klong = new_interp(premod)
+        _W.switches = 0
     mod0 = k._module
     s0 = snap(k)
+    t0 = time.monotonic()
     tag, val, calls = guarded(lambda: k.prog(text), budget)
+    wall = time.monotonic() - t0
+    out["wall"] = wall
+    if wall > SOFT_WALL + SOFT_PER_STEP * (st or 0):
+        out["problems"].append(("slow", f"{wall:.1f} s of wall clock for {len(text)} characters, {calls} profile events "
+                                        f"(model steps {st}): work the call count does not see"))
     out["calls"] = calls
     real = classify_real(tag, val)
     out["real"] = real[0] + (":" + real[2] if real[2] else "")
@@ -432,7 +422,8 @@ def run_case0(text, premod, want_eval, mrep=None):
     # ---- repeat in the same module, same interpreter
     k = _W.klong
     try:
-        k._module = mod0
+        if modstr(k._module) != modstr(mod0):      # back into the module of the first parse, by parsing
+            k.prog(f".module(:{premod})" if premod else ".module(0)")
         tag2, val2, _ = plain(lambda: k.prog(text))
         if (tag, tag2) == ("ok", "ok"):
             d1 = (val[0], fulldump(val[1]))
@@ -514,46 +505,222 @@ def _worker_init(use_driver):
         resource.setrlimit(resource.RLIMIT_AS, (6 << 30, 6 << 30))
     except Exception:
         pass
-    signal.signal(signal.SIGALRM, _on_alarm)
     from klongpy import KlongInterpreter
     _W.KI = KlongInterpreter
     _W.klong = KlongInterpreter()
     _W.drv = Driver("c12") if use_driver else None
 
 
-def _worker_batch(job):
-    """job: (id, list of (text, premod, want_eval)); returns (id, counters, anomalies, samples)"""
-    bid, batch = job
-    counters = {}
-    anomalies = []
-    samples = []
-    signal.alarm(BATCH_ALARM)
+def _steps_of(mrep):
+    if mrep is None:
+        return 0
+    m = re.search(r" st=(\d+)", mrep)
+    return int(m.group(1)) if m else 0
+
+
+def _worker_main(conn, use_driver):
+    """worker process: receives ('batch', id, cases), announces every text before it starts on it
+    ('hb', id, index, model steps) so that the parent can see which text a silent worker is stuck on, and
+    answers ('done', id, counters, anomalies, samples)"""
     try:
-        mreps = model_many(batch) if _W.drv is not None else [None] * len(batch)
-        for (text, premod, want_eval), mrep in zip(batch, mreps):
-            try:
-                o = run_case(text, premod, want_eval, mrep)
-            except Alarm:
-                anomalies.append(dict(text=text, premod=premod, problems=[("infra-alarm", "batch alarm")], mism=None))
+        _worker_init(use_driver)
+        conn.send(("ready",))
+        while True:
+            msg = conn.recv()
+            if msg[0] == "stop":
                 break
-            key = "real:" + o["real"]
-            counters[key] = counters.get(key, 0) + 1
-            if o.get("inmodel"):
-                counters["in-model"] = counters.get("in-model", 0) + 1
-            if "eval" in o:
-                counters["eval:" + o["eval"]] = counters.get("eval:" + o["eval"], 0) + 1
-            if o.get("st") and o.get("calls", 0) > 0:
-                r = o["calls"] / max(1, o["st"])
-                counters["maxratio"] = max(counters.get("maxratio", 0), r)
-                n = len(text) + 1
-                counters["maxsteps_over_n2"] = max(counters.get("maxsteps_over_n2", 0), o["st"] / (n * n))
-            if o["problems"] or o["mism"]:
-                anomalies.append(dict(text=text, premod=premod, problems=o["problems"], mism=o["mism"]))
-            elif len(samples) < 1 and len(text) > 3:
-                samples.append(dict(text=text, premod=premod, real=o["real"], steps=o.get("st"), calls=o.get("calls")))
+            _, bid, batch = msg
+            counters, anomalies, samples = {}, [], []
+            conn.send(("hb", bid, -1, 0))
+            mreps = model_many(batch) if _W.drv is not None else [None] * len(batch)
+            for k, ((text, premod, want_eval), mrep) in enumerate(zip(batch, mreps)):
+                conn.send(("hb", bid, k, _steps_of(mrep)))
+                o = run_case(text, premod, want_eval, mrep)
+                key = "real:" + o["real"]
+                counters[key] = counters.get(key, 0) + 1
+                if o.get("inmodel"):
+                    counters["in-model"] = counters.get("in-model", 0) + 1
+                if "eval" in o:
+                    counters["eval:" + o["eval"]] = counters.get("eval:" + o["eval"], 0) + 1
+                if o.get("st") and o.get("calls", 0) > 0:
+                    r = o["calls"] / max(1, o["st"])
+                    counters["maxratio"] = max(counters.get("maxratio", 0), r)
+                    n = len(text) + 1
+                    counters["maxsteps_over_n2"] = max(counters.get("maxsteps_over_n2", 0), o["st"] / (n * n))
+                counters["maxwall"] = max(counters.get("maxwall", 0), o.get("wall", 0))
+                if o["problems"] or o["mism"]:
+                    anomalies.append(dict(text=text, premod=premod, problems=o["problems"], mism=o["mism"]))
+                elif len(samples) < 1 and len(text) > 3:
+                    samples.append(dict(text=text, premod=premod, real=o["real"], steps=o.get("st"), calls=o.get("calls")))
+            conn.send(("done", bid, counters, anomalies, samples))
+    except (EOFError, KeyboardInterrupt):
+        pass
     finally:
-        signal.alarm(0)
-    return bid, counters, anomalies, samples
+        try:
+            if _W.drv:
+                _W.drv.close()
+        except Exception:
+            pass
+
+
+class _Slot:
+    def __init__(self, mpctx, use_driver):
+        self.parent, child = mpctx.Pipe()
+        self.proc = mpctx.Process(target=_worker_main, args=(child, use_driver), daemon=True)
+        self.proc.start()
+        child.close()
+        self.job = None          # (kind, bid, batch)
+        self.k = -1
+        self.last = time.monotonic()
+        self.limit = MODEL_WALL
+        self.ready = False
+
+    def kill(self):
+        try:
+            self.proc.kill()
+            self.proc.join(5)
+        except Exception:
+            pass
+        try:
+            self.parent.close()
+        except Exception:
+            pass
+
+
+class Supervisor:
+    """runs batches on worker processes under a wall-clock watchdog (see SOFT_WALL / HARD_WALL).
+    on_done(bid, counters, anomalies, samples) is called for every finished batch; `hangs` collects the
+    confirmed (text, premod, detail) of texts whose parse does not return / is slow twice."""
+
+    def __init__(self, use_driver, nproc):
+        self.mpctx = mp.get_context("fork")
+        self.use_driver = use_driver
+        self.nproc = nproc
+        self.slots = []
+        self.front = []          # jobs to run before the stream: ('confirm'|'batch', bid, cases)
+        self.hangs = []
+        self.dismissed = 0
+        self.stop_at = None
+        self.next_bid = -1
+
+    def _new_bid(self):
+        self.next_bid -= 1
+        return self.next_bid
+
+    def _assign(self, slot, job):
+        slot.job = job
+        slot.k = -1
+        slot.last = time.monotonic()
+        slot.limit = MODEL_WALL
+        slot.parent.send(("batch", job[1], job[2]))
+
+    def _suspect(self, text, premod, detail):
+        """a text that hung or was slow once: run it alone in a fresh worker"""
+        if self.hangs and len(text) >= min(len(h[0]) for h in self.hangs):
+            return                                  # a shorter witness is already confirmed
+        self.front.insert(0, ("confirm", self._new_bid(), [(text, premod, False)], detail))
+
+    def _confirmed(self, text, premod, detail):
+        self.hangs.append((text, premod, detail))
+        if self.stop_at is None:
+            self.stop_at = time.monotonic() + GRACE_AFTER_HANG
+            common.log(f"C12: hang confirmed on {text!r}; finishing the texts that are not longer")
+
+    def run(self, stream, on_done):
+        stream = iter(stream)
+        exhausted = False
+        self.slots = [_Slot(self.mpctx, self.use_driver) for _ in range(self.nproc)]
+        try:
+            while True:
+                now = time.monotonic()
+                stopping = self.stop_at is not None
+                if stopping and now > self.stop_at:
+                    break
+                # hand out work
+                for i, sl in enumerate(self.slots):
+                    if sl.job is not None or not sl.ready:
+                        continue
+                    job = None
+                    if self.front:
+                        job = self.front.pop(0)
+                    elif not exhausted and not stopping:
+                        try:
+                            bid, batch = next(stream)
+                            job = ("batch", bid, batch)
+                        except StopIteration:
+                            exhausted = True
+                    if job is not None:
+                        self._assign(sl, job)
+                busy = [sl for sl in self.slots if sl.job is not None or not sl.ready]
+                if not any(sl.job is not None for sl in self.slots) and not self.front and (exhausted or stopping):
+                    break
+                for conn in mp_wait([sl.parent for sl in busy], timeout=0.25):
+                    sl = next(x for x in self.slots if x.parent is conn)
+                    try:
+                        msg = conn.recv()
+                    except (EOFError, OSError):
+                        self._lost(sl, "worker process died")
+                        continue
+                    if msg[0] == "ready":
+                        sl.ready = True
+                        sl.last = time.monotonic()
+                    elif msg[0] == "hb":
+                        sl.k = msg[2]
+                        sl.last = time.monotonic()
+                        sl.limit = MODEL_WALL if msg[2] < 0 else HARD_WALL + HARD_PER_STEP * msg[3]
+                        if sl.job[0] == "confirm":
+                            sl.limit *= 2
+                    elif msg[0] == "done":
+                        job, sl.job = sl.job, None
+                        _, bid, counters, anomalies, samples = msg
+                        if job[0] == "confirm":
+                            text, premod, _ = job[2][0]
+                            slow = [d for a in anomalies for k, d in a["problems"] if k in ("slow", "hang")]
+                            if slow:
+                                self._confirmed(text, premod, job[3] + "; again in a fresh process: " + slow[0])
+                            else:
+                                self.dismissed += 1
+                        else:
+                            for a in anomalies:
+                                for k, d in a["problems"]:
+                                    if k == "slow":
+                                        self._suspect(a["text"], a["premod"], d)
+                                a["problems"] = [(k, d) for k, d in a["problems"] if k != "slow"]
+                            on_done(bid, counters, [a for a in anomalies if a["problems"] or a["mism"]], samples)
+                now = time.monotonic()
+                for i, sl in enumerate(self.slots):
+                    if (sl.job is not None or not sl.ready) and now - sl.last > sl.limit:
+                        self._lost(sl, f"no progress for {now - sl.last:.0f} s of wall clock")
+        finally:
+            for sl in self.slots:
+                try:
+                    if sl.job is None and sl.ready:
+                        sl.parent.send(("stop",))
+                except Exception:
+                    pass
+            time.sleep(0.05)
+            for sl in self.slots:
+                sl.kill()
+        return self.hangs
+
+    def _lost(self, sl, why):
+        """a worker is silent or dead: kill it, replace it, decide what the text it was on means"""
+        job, k = sl.job, sl.k
+        idx = self.slots.index(sl)
+        sl.kill()
+        self.slots[idx] = _Slot(self.mpctx, self.use_driver)
+        if job is None:
+            raise Infra(f"C12 worker could not start: {why}")
+        if k < 0:
+            raise Infra(f"C12 worker stuck before the first text of a batch (model calls): {why}")
+        text, premod, _ = job[2][k]
+        if job[0] == "confirm":
+            self._confirmed(text, premod, job[3] + f"; again in a fresh process: {why}, process killed")
+            return
+        self._suspect(text, premod, f"{why} while parsing {len(text)} characters (process killed)")
+        rest = job[2][:k] + job[2][k + 1:]
+        if rest and self.stop_at is None:
+            self.front.append(("batch", job[1], rest))
 
 
 # --------------------------------------------------------------------------- generators
@@ -669,6 +836,21 @@ def directive_strings(lines):
     return out
 
 
+def unterminated_strings():
+    """constructs whose closing delimiter is missing, 16 to 44 characters long (the lexer accepts an
+    unterminated string / comment / list silently): plain runs, words and blanks, doubled quotes inside,
+    inside calls, lists, functions and directives"""
+    out = []
+    words = "three four five six seven eight nine ten eleven twelve"
+    for n in range(16, 45):
+        body = ("a" * n)
+        w = words[:n]
+        out += ['"' + body, '"' + w, 't("' + w, '.p("' + w, '[1 2 "' + w + "]", 'a::"' + w, '{x,"' + w + "}",
+                '"' + w[:n // 2] + '""' + w[n // 2:], '"ab" "' + w, 'f("a";"' + w + ")", ':"' + w, '[' + "1 " * (n // 2),
+                '{' + "x;" * (n // 2), 'f(' + "1;" * (n // 2), '.comment("' + w, ':{["' + w + "]}", '0c""' + w, "1+\"" + w + "\n2"]
+    return out
+
+
 def opener_strings():
     """every construct opener followed by every character (alone, doubled, after a blank, before a quote)"""
     out = []
@@ -763,6 +945,9 @@ def _cases(ctx):
     for s in opener_strings():
         if fresh(s, None):
             yield ("opener", s, None, True)
+    for s in unterminated_strings():
+        if fresh(s, None):
+            yield ("unterminated", s, None, False)
     lines, nfiles = corpus_lines()
     for s in directive_strings(lines):
         if fresh(s, None):
@@ -790,6 +975,7 @@ def _cases(ctx):
             if fresh(txt, None):
                 yield ("edit2", txt, None, rng.random() < 0.5)
     else:
+        yield ("@bulk", "", None, False)
         full = set(rng.sample(range(len(lines)), min(500, len(lines))))
         for li, l in enumerate(lines):
             if fresh(l, None):
@@ -809,8 +995,6 @@ def _cases(ctx):
 def _report(ctx, group, a):
     case = dict(kind="parse", text=a["text"], premod=a["premod"], group=group)
     for key, detail in a["problems"]:
-        if key == "infra-alarm":
-            raise Infra(f"worker batch alarm on {a['text'][:80]!r} (not confirmed as a hang by the line-count budget)")
         what = {
             "hang": "the parser does not return within the call budget derived from the model's step count",
             "variables": "parsing changed a variable",
@@ -820,6 +1004,7 @@ def _report(ctx, group, a):
             "eval": "the re-parsed program evaluates differently",
             "module-object-address": "two parses differ only in a memory address inside a module-qualified symbol name",
             "setup": "setting the module through .module(...) failed",
+            "slow": "the parse takes seconds of wall clock although the call count is small",
         }.get(key, key)
         ctx.oracle_fail("parse:" + key, case, "property holds", detail[:600], what)
     if a["mism"]:
@@ -830,6 +1015,16 @@ def _report(ctx, group, a):
         ctx.mismatch("Klong.C12.parse vs KlongInterpreter.prog (" + where + ")", case, model, impl)
 
 
+def _report_hangs(ctx, hangs):
+    """smallest text first: it becomes the replay"""
+    for text, premod, detail in sorted(hangs, key=lambda h: (len(h[0]), h[0])):
+        common.log(f"C12: parse does not return in bounded time on {text!r}: {detail}"[:600])
+        ctx.oracle_fail("parse:hang", dict(kind="parse", text=text, premod=premod, group="watchdog"),
+                        "prog(text) returns after work bounded by a polynomial in len(text)", detail[:600],
+                        "the parser does not return within the wall-clock supervisor's limit, twice, the second time "
+                        "alone in a fresh process (work invisible to the call count, e.g. inside a C extension)")
+
+
 def run(ctx):
     quick = ctx.tier == "quick"
     use_driver = bool(getattr(ctx, "driver_ok", True))
@@ -837,7 +1032,7 @@ def run(ctx):
                 "again inside a module; token-level edits (delete, insert, swap, truncate) of the unique lines of every "
                 ".kg file of the repository: a seeded sample of single and double edits (quick) / every delete, truncate, "
                 "swap and one seeded insert per position, every pool insert for 500 lines, 100k double edits (thorough); "
-                "every construct opener followed by every character; parse-time directives (.comment/.module) with 31 kinds "
+                "every construct opener followed by every character; constructs without their closing delimiter, 16-44 characters; parse-time directives (.comment/.module) with 31 kinds "
                 "of non-literal argument x 6 continuations and every pool insert into every corpus line holding a directive; a fixed set of long generated strings. distinct = distinct (text, module); non-trivial = length >= 2")
     ctx.assumptions += [
         "Python's recursion limit is not modelled: RecursionError counts as an error after bounded work and is excluded from the model comparison",
@@ -857,50 +1052,64 @@ def run(ctx):
         real = sorted(enc(k) for k in KlongInterpreter()._vm.keys())
         ctx.obligation("monad-table (Klong.C12.monadNames = keys of KlongInterpreter._vm)",
                        sorted(rep.split(" ", 1)[1].split(",")) == real, f"{rep} vs {real}")
-    bsz = 250 if quick else 2000
     groups = {}
     total = [0]
 
-    def batches():
-        cur = []
-        bid = 0
-        for g, t, p, e in _cases(ctx):
+    def chunks(items, bsz):
+        """batches of at most bsz texts and bounded total quadratic weight"""
+        cur, wgt = [], 0
+        for g, t, p, e in items:
             total[0] += 1
             ctx.bump("group:" + g.split(":")[0])
-            if g == "long":       # quadratic cost: small batches of their own
-                groups[bid] = {(t, p): g}
-                yield bid, [(t, p, e)]
-                bid += 1
-                continue
             cur.append((g, t, p, e))
-            if len(cur) >= bsz:
+            wgt += (len(t) + 1) ** 2
+            if len(cur) >= bsz or wgt > 3_000_000:
+                yield cur
+                cur, wgt = [], 0
+        if cur:
+            yield cur
+
+    def stream():
+        """the small families first, shortest texts first (the smallest failing text becomes the replay);
+        then the bulk of the corpus edits (thorough) as it is generated"""
+        gen = _cases(ctx)
+        small = []
+        for c in gen:
+            if c[0] == "@bulk":
+                break
+            small.append(c)
+        small.sort(key=lambda c: (len(c[1]), c[1], c[2] or ""))
+        bid = 0
+        for part, bsz in ((small, 100), (gen, 2000)):
+            for cur in chunks(part, bsz):
                 groups[bid] = {(t, p): g for g, t, p, e in cur}
                 yield bid, [(t, p, e) for g, t, p, e in cur]
                 bid += 1
-                cur = []
-        if cur:
-            groups[bid] = {(t, p): g for g, t, p, e in cur}
-            yield bid, [(t, p, e) for g, t, p, e in cur]
+
+    done = [0]
+
+    def on_done(bid, counters, anomalies, samples):
+        done[0] += 1
+        if done[0] % 100 == 0:
+            common.log(f"C12: {done[0]} batches, {total[0]} cases generated, {len(ctx.mismatches)} mismatches, "
+                       f"{len(ctx.oracle_failures)} oracle failures")
+        for k, v in counters.items():
+            if k.startswith("max"):
+                ctx.extra[k] = round(max(ctx.extra.get(k, 0), v), 3)
+            else:
+                ctx.bump(k, v)
+        grp = groups.pop(bid, {})
+        for a in anomalies:
+            _report(ctx, grp.get((a["text"], a["premod"]), "?"), a)
+        for s in samples:
+            ctx.sample(s, limit=8)
 
     nproc = min(16, os.cpu_count() or 1)
-    mpctx = mp.get_context("fork")
-    with mpctx.Pool(nproc, initializer=_worker_init, initargs=(use_driver,)) as pool:
-        done = 0
-        for bid, counters, anomalies, samples in pool.imap_unordered(_worker_batch, batches()):
-            done += 1
-            if done % 50 == 0:
-                common.log(f"C12: {done} batches, {total[0]} cases generated, {len(ctx.mismatches)} mismatches, "
-                           f"{len(ctx.oracle_failures)} oracle failures")
-            for k, v in counters.items():
-                if k.startswith("max"):
-                    ctx.extra[k] = round(max(ctx.extra.get(k, 0), v), 3)
-                else:
-                    ctx.bump(k, v)
-            grp = groups.pop(bid, {})
-            for a in anomalies:
-                _report(ctx, grp.get((a["text"], a["premod"]), "?"), a)
-            for s in samples:
-                ctx.sample(s, limit=8)
+    sup = Supervisor(use_driver, nproc)
+    hangs = sup.run(stream(), on_done)
+    _report_hangs(ctx, hangs)
+    ctx.extra["slow_texts_dismissed_on_rerun"] = sup.dismissed
+    ctx.extra["stopped_early_after_hang"] = bool(hangs)
     ctx.evaluations = total[0]
     ctx.extra["cases"] = total[0]
     cases = range(total[0])
@@ -914,15 +1123,14 @@ def run(ctx):
 
 def replay(ctx, case):
     c = case.get("case", case)
-    _worker_init(bool(getattr(ctx, "driver_ok", True)))
-    signal.alarm(BATCH_ALARM)
-    try:
-        o = run_case(c["text"], c.get("premod"), True)
-    finally:
-        signal.alarm(0)
-        if _W.drv:
-            _W.drv.close()
-    ctx.count((c["text"], c.get("premod")))
-    _report(ctx, c.get("group", "replay"), dict(text=c["text"], premod=c.get("premod"), problems=o["problems"], mism=o["mism"]))
-    print("replay:", json.dumps(dict(text=c["text"], real=o["real"], calls=o.get("calls"), budget=o.get("budget"),
-                                     problems=o["problems"], mismatch=o["mism"]), default=str)[:2000])
+    text, premod = c["text"], c.get("premod")
+    use_driver = bool(getattr(ctx, "driver_ok", True))
+    got = []
+    sup = Supervisor(use_driver, 1)
+    hangs = sup.run(iter([(0, [(text, premod, True)])]), lambda bid, counters, anomalies, samples: got.append((counters, anomalies)))
+    ctx.count((text, premod))
+    _report_hangs(ctx, hangs)
+    for counters, anomalies in got:
+        for a in anomalies:
+            _report(ctx, c.get("group", "replay"), a)
+    print("replay:", json.dumps(dict(text=text, premod=premod, hangs=hangs, results=got), default=str)[:2000])
